@@ -17,11 +17,15 @@ from . import env
 from .harness import ContractBroken
 
 EVALS = collections.Counter()
+NOT_ATTACHED = []
 _installed = {}
 
 
 def evaluation_counts():
-    return dict(EVALS)
+    d = dict(EVALS)
+    for n in NOT_ATTACHED:
+        d["not-attachable:" + n] = 1
+    return d
 
 
 def emu_stats():
@@ -200,8 +204,24 @@ def install_kernel_contracts(ps):
     import pyspike.cython.directionality_python_backend as dpb
 
     def wrap(mod, name, cond, label):
-        if hasattr(mod, name):
-            setattr(mod, name, icontract.ensure(cond, error=_kerr(label))(getattr(mod, name)))
+        """attach a post-condition if the routine exists and has the parameters the condition needs; a refactoring that
+        renames an internal routine or its parameters makes the contract unattachable (recorded), never an alarm"""
+        fn = getattr(mod, name, None)
+        if fn is None:
+            NOT_ATTACHED.append("%s.%s (absent)" % (mod.__name__, name))
+            return None
+        try:
+            need = [p_ for p_ in inspect.signature(cond).parameters if p_ != "result"]
+            have = inspect.signature(fn).parameters
+            if any(p_ not in have for p_ in need):
+                NOT_ATTACHED.append("%s.%s (parameters renamed)" % (mod.__name__, name))
+                return None
+            w = icontract.ensure(cond, error=_kerr(label) if cond is not post_tau else _tauerr(label))(fn)
+            setattr(mod, name, w)
+            return w
+        except Exception as e:          # pragma: no cover
+            NOT_ATTACHED.append("%s.%s (%s)" % (mod.__name__, name, type(e).__name__))
+            return None
     wrap(pb, "isi_distance_python", post_isi, "isi kernel: axis from t_start to t_end strictly increasing, 0<=y<=1")
     wrap(pb, "spike_distance_python", post_spike, "spike kernel: axis/limits well-formed, finite, >=0")
     wrap(pb, "coincidence_python", post_coinc, "coincidence kernel: 0<=c<=mp, mp in {1,2}")
@@ -209,9 +229,9 @@ def install_kernel_contracts(ps):
     wrap(dpb, "spike_train_order_profile_python", post_order, "order kernel: |a|<=mp, mp in {1,2}")
     wrap(dpb, "spike_directionality_profile_python", post_dirprof,
          "directionality kernel: values in {-1,0,1}, sum d1 == -sum d2")
-    tau_wrapped = icontract.ensure(post_tau, error=_tauerr("get_tau: 0<=tau<=limit/2"))(pb.get_tau)
-    pb.get_tau = tau_wrapped
-    dpb.get_tau = tau_wrapped
+    tau_wrapped = wrap(pb, "get_tau", post_tau, "get_tau: 0<=tau<=limit/2")
+    if tau_wrapped is not None and getattr(dpb, "get_tau", None) is not None:
+        dpb.get_tau = tau_wrapped
     emu = env.emu_modules()
     if emu:
         wrap(emu["cython_profiles"], "isi_profile_cython", post_isi, "isi kernel (pyx)")
@@ -221,10 +241,10 @@ def install_kernel_contracts(ps):
         wrap(emu["cython_directionality"], "spike_train_order_profile_cython", post_order, "order kernel (pyx)")
         wrap(emu["cython_directionality"], "spike_directionality_profiles_cython", post_dirprof,
              "directionality kernel (pyx)")
-        gt = icontract.ensure(post_tau, error=_tauerr("get_tau (pyx): 0<=tau<=limit/2"))(emu["cython_get_tau"].get_tau)
-        emu["cython_get_tau"].get_tau = gt
-        for n in ("cython_profiles", "cython_distances", "cython_directionality"):
-            emu[n].get_tau = gt
+        gt = wrap(emu["cython_get_tau"], "get_tau", post_tau, "get_tau (pyx): 0<=tau<=limit/2")
+        if gt is not None:
+            for n in ("cython_profiles", "cython_distances", "cython_directionality"):
+                emu[n].get_tau = gt
     _installed["M3"] = True
 
 
